@@ -72,14 +72,16 @@ def freshUid : St :=
   (.setI "uid" (.bin .add (.var "uid") (.lit 1)))
 
 /-- the search for the first matching window cell that already has a label (`area_val > 0`) -/
+def findBody : St :=
+  .seq (.setF "area_val" (.ld1 "area_window" (.ld1 "neighbor_matches" (.var "j"))))
+  (.ite (.cmpF .gt (.var "area_val") (.ofInt (.lit 0)))
+    (.seq (.setF "assigned_value" (.var "area_val"))
+    (.seq (.setB "assigned_value$some" .tt)
+    .brk))
+    .skip)
+
 def findLoop : St :=
-  .forRange "j" (.lit 0) (.dim "neighbor_matches" 0) (.lit 1)
-    (.seq (.setF "area_val" (.ld1 "area_window" (.ld1 "neighbor_matches" (.var "j"))))
-    (.ite (.cmpF .gt (.var "area_val") (.ofInt (.lit 0)))
-      (.seq (.setF "assigned_value" (.var "area_val"))
-      (.seq (.setB "assigned_value$some" .tt)
-      .brk))
-      .skip))
+  .forRange "j" (.lit 0) (.dim "neighbor_matches" 0) (.lit 1) findBody
 
 def assign1 : St :=
   .ite (.cmpI .gt (.dim "neighbor_matches" 0) (.lit 0))
@@ -99,12 +101,16 @@ def cell1 : St :=
   (matchThen "elem1$k" "where2$n" "where2$k" assign1)))
 
 /-- `out[out == a] = b` as written in the source: two nested loops over the raster -/
+def relabelBody (a b : String) : St :=
+  .ite (.cmpF .eq (.ld2 "out" (.var "y1") (.var "x1")) (.var a))
+    (.stF2 "out" (.var "y1") (.var "x1") (.var b))
+    .skip
+
+def relabelRow (a b : String) : St :=
+  .forRange "x1" (.lit 0) (.var "cols") (.lit 1) (relabelBody a b)
+
 def relabel (a b : String) : St :=
-  .forRange "y1" (.lit 0) (.var "rows") (.lit 1)
-    (.forRange "x1" (.lit 0) (.var "cols") (.lit 1)
-      (.ite (.cmpF .eq (.ld2 "out" (.var "y1") (.var "x1")) (.var a))
-        (.stF2 "out" (.var "y1") (.var "x1") (.var b))
-        .skip))
+  .forRange "y1" (.lit 0) (.var "rows") (.lit 1) (relabelRow a b)
 
 def setMin : St :=
   .seq (.setF "assigned_values_min" (.var "area_val"))
@@ -129,8 +135,9 @@ def cell2 : St :=
   (.seq (.ite (.isnan (.var "val")) .cont .skip)
   (matchThen "elem3$k" "where4$n" "where4$k" merge)))
 
-def pass (cell : St) : St :=
-  .forRange "y" (.lit 0) (.var "rows") (.lit 1) (.forRange "x" (.lit 0) (.var "cols") (.lit 1) cell)
+def passRow (cell : St) : St := .forRange "x" (.lit 0) (.var "cols") (.lit 1) cell
+
+def pass (cell : St) : St := .forRange "y" (.lit 0) (.var "rows") (.lit 1) (passRow cell)
 
 def init : List St :=
   [.allocF "out" [(.dim "data" 0), (.dim "data" 1)] (.lit 0 1),
